@@ -14,6 +14,7 @@ from vf import env, wnio
 from vf.gen import graphs
 from vf.model.taxo import G, ROOT, valid_path
 
+ID = 'C13'
 RULE = ('one evaluation = one graph (all its nodes, all ordered pairs, simulate_root in {False, True}); distinct = edge list + part-of-speech '
         'labelling; non-trivial = the graph has at least one edge')
 ASSUMPTIONS = ['with simulate_root the virtual root sits above the end of every maximal simple chain (what "joins all roots" means on a DAG)',
@@ -40,6 +41,7 @@ def plan(tier, seed):
     nr = 96 if tier == 'quick' else 3000
     for start in range(0, nr, 24):
         cases.append({'kind': 'random', 'start': start, 'count': 24, 'posmode': (start // 24) % 3, 'seed': seed})
+    cases.append({'kind': 'pytest-under-contracts'})
     return cases
 
 
@@ -99,6 +101,9 @@ def key_of(lid, ss):
 
 
 def run_case(case, rec):
+    if case.get('kind') == 'pytest-under-contracts':
+        from vf import contracts_case
+        return contracts_case.run(rec, ID)
     import wn
     from wn import taxonomy
     gs = graphs_of(case)
